@@ -109,6 +109,9 @@ def normalize_types(f):
 
             else:
                 # one of the operands is reversed
+                if self.name == o.name:
+                    # the same variable, but byte-swapped on one side only: not the same value any more
+                    o = o.nameless_copy()
                 if _lossless_reverse(self):
                     self = self._reverse()
                     if o._reversed:
